@@ -34,6 +34,18 @@ func split(input []byte) string {
 	if p, _ := hx.Guard(func() { args, eof, err = varutil.ReadArguments(rd) }); p {
 		return "panic"
 	}
+	// the string entry point (InjectString, RunString) must read the same bytes the same way
+	var (
+		sargs []string
+		seof  bool
+		serr  error
+	)
+	if p, _ := hx.Guard(func() { sargs, seof, serr = varutil.SplitArguments(string(input)) }); p {
+		return "panic-in-SplitArguments"
+	}
+	if (serr != nil) != (err != nil) || (err == nil && (seof != eof || !sameWords(sargs, args))) {
+		return fmt.Sprintf("entry-points-differ ReadArguments=(%q,%v,%v) SplitArguments=(%q,%v,%v)", args, eof, err != nil, sargs, seof, serr != nil)
+	}
 	if err != nil {
 		return fmt.Sprintf("err eof=%v", eof)
 	}
@@ -43,6 +55,22 @@ func split(input []byte) string {
 	}
 	return fmt.Sprintf("ok eof=%v rest=%d args=[%s]", eof, rd.Len(), strings.Join(enc, ","))
 }
+
+func sameWords(a, b []string) bool {
+	if len(a) != len(b) {
+		return false
+	}
+	for i := range a {
+		if a[i] != b[i] {
+			return false
+		}
+	}
+	return true
+}
+
+// bytes and byte sequences that are white space to unicode.IsSpace / strings.Fields but NOT separators of the
+// argument syntax (only blank, tab and newline are): they are ordinary argument bytes
+var notSeparators = []string{"\r", "\v", "\f", "\xc2\x85", "\xc2\xa0", "\xe2\x80\x83", "\xe3\x80\x80", "\xe2\x80\xa8", "\x1c", "\x00"}
 
 func enum(w *bufio.Writer, n int, cur []byte) {
 	if n == 0 {
@@ -112,12 +140,14 @@ func render(a []byte) []byte {
 }
 
 func randBytes(r *hx.Rand, n int, wide bool) []byte {
-	b := make([]byte, n)
-	for i := range b {
+	b := make([]byte, 0, n)
+	for i := 0; i < n; i++ {
 		if wide && r.Chance(1, 3) {
-			b[i] = byte(r.Intn(256))
+			b = append(b, byte(r.Intn(256)))
+		} else if wide && r.Chance(1, 8) {
+			b = append(b, r.Pick(notSeparators)...)
 		} else {
-			b[i] = alphabet[r.Intn(len(alphabet))]
+			b = append(b, alphabet[r.Intn(len(alphabet))])
 		}
 	}
 	return b
@@ -213,7 +243,7 @@ func oracle(w *bufio.Writer, n int) {
 				case 0:
 					b[i] = byte(0x80 + r.Intn(0x80))
 				case 1:
-					b[i] = "=<a-_$./"[r.Intn(8)]
+					b[i] = "=<a-_$./\r\v\f\x00\x1c"[r.Intn(13)]
 				default:
 					b[i] = byte(33 + r.Intn(94))
 				}
@@ -390,8 +420,20 @@ func oracle(w *bufio.Writer, n int) {
 			sepTail := []string{}
 			all := append([]string{}, args...)
 			if r.Chance(1, 2) {
-				all = append(all, "--", "x=1", "y")
-				sepTail = []string{hx.Enc([]byte("x=1")), hx.Enc([]byte("y"))}
+				// everything after the FIRST bare "--" is kept verbatim, in order: words that look like named
+				// arguments, further "--" words and empty words included; none of it is injected
+				tail := []string{"x=1", "y"}
+				if r.Chance(1, 2) {
+					tail = nil
+					for m := r.Intn(6); m > 0; m-- {
+						tail = append(tail, r.Pick([]string{"--", "--", "n0=late", "$0=late", "-n1=late", "", "w", "--n2=late", "-"}))
+					}
+				}
+				all = append(all, "--")
+				all = append(all, tail...)
+				for _, t := range tail {
+					sepTail = append(sepTail, hx.Enc([]byte(t)))
+				}
 			}
 			want := "map " + strings.Join(items, ",") + " sep=" + strings.Join(sepTail, ",")
 			enc := make([]string, len(all))
